@@ -177,31 +177,48 @@ def parse_assumptions(out):
     return res
 
 
-ALLOWED_AXIOM_PREFIXES = (
-    # Coq's own specification of the primitive floats / ints (standard library)
-    "PrimFloat.", "Uint63.", "FloatAxioms.", "SpecFloat.", "PrimInt63.", "Sint63.",
-    "float :", "int :", "float_class", "FloatOps.",
-    "mul_spec", "div_spec", "add_spec", "sub_spec", "opp_spec", "abs_spec", "eqb_spec",
-    "ltb_spec", "leb_spec", "compare_spec", "Prim2SF", "SF2Prim", "of_uint63", "sqrt_spec",
-    "normfr_mantissa", "frshiftexp", "ldshiftexp", "next_up", "next_down", "classify_spec",
-    "functional_extensionality_dep", "Eqdep.Eq_rect_eq.eq_rect_eq", "JMeq_eq",
-    "Classical_Prop.classic", "ProofIrrelevance.proof_irrelevance",
-)
+STDLIB = "/usr/lib/ocaml/coq/theories"
+
+
+def _stdlib_primitives():
+    """names declared with `Primitive` in Coq's PrimFloat / PrimInt63 (they are listed by
+    Print Assumptions but are not axioms of this development) and the axioms of FloatAxioms /
+    the standard logical axioms the brief allows."""
+    names = set()
+    for rel in ("Floats/PrimFloat.v", "Numbers/Cyclic/Int63/PrimInt63.v", "Array/PArray.v"):
+        try:
+            text = open(os.path.join(STDLIB, rel)).read()
+        except OSError:
+            continue
+        names.update(re.findall(r"^\s*Primitive\s+([A-Za-z0-9_']+)", text, re.M))
+    try:
+        text = open(os.path.join(STDLIB, "Floats/FloatAxioms.v")).read()
+        names.update(re.findall(r"^\s*Axiom\s+([A-Za-z0-9_']+)", text, re.M))
+    except OSError:
+        pass
+    names.update(["functional_extensionality_dep", "eq_rect_eq", "JMeq_eq", "classic", "proof_irrelevance",
+                  "propositional_extensionality"])
+    return names
+
+
+_PRIMS = None
 
 
 def audit_assumptions(out):
-    """Return list of axioms that are neither primitives nor stdlib-declared."""
+    """Return the axioms that are neither primitives nor declared by the standard library."""
+    global _PRIMS
+    if _PRIMS is None:
+        _PRIMS = _stdlib_primitives()
     bad = []
     for block in parse_assumptions(out):
         if not block.startswith("Axioms:"):
             continue
         body = block[len("Axioms:"):]
-        for m in re.finditer(r"^\s*([A-Za-z_][A-Za-z0-9_.']*)\s*:", body, re.M):
+        for m in re.finditer(r"^([A-Za-z_][A-Za-z0-9_.']*)\s*(?::|$)", body, re.M):
             name = m.group(1)
-            if not any(name.startswith(p) or name.split(".")[-1].startswith(p)
-                       for p in ALLOWED_AXIOM_PREFIXES):
+            if name.split(".")[-1] not in _PRIMS:
                 bad.append(name)
-    return bad
+    return sorted(set(bad))
 
 
 # ------------------------------------------------------------------ case files
